@@ -100,6 +100,15 @@ def r1(ctx):
                 live = [e for e in exits if any(x in c2.reachable(c2.entry) for x in c2.nodes_of(e))]
                 ctx.ob(fi.qual, "record-loop-no-early-exit", not live, fi.loc(n), "the record loop is only left when the chromosome is exhausted (continue is fine: the generator writes on resume)" if not live else "`%s` leaves the record loop: the remaining records of the chromosome are never written" % u(live[0]))
     ctx.require(n_mod >= 2, "fewer than two loops over _record_modifier found in vcf.py")
+    # (a5) the chromosome driver yields a table for every chromosome of the file, even an empty one
+    vi = ctx.func(V + ".VcfReader.__iter__")
+    vcfg = ctx.cfg(vi)
+    gl = [n for n in walk_function(vi.node) if isinstance(n, ast.For) and "groupby" in u(n.iter)]
+    ctx.require(len(gl) == 1, "VcfReader.__iter__ does not loop over itertools.groupby")
+    probs = util.check_loop_conservation(vcfg, gl[0], lambda n: vcfg.kind(n) == "stmt" and any(isinstance(x, ast.Yield) for x in ast.walk(vcfg.ast(n))))
+    ctx.ob(vi.qual, "every-chromosome-yielded", not probs, vi.loc(gl[0]), "a variant table is yielded for every chromosome group of the input (the subcommands write a chromosome only when they get its table)" if not probs else "a chromosome can be skipped by the reader: its records are never handed to the writer and vanish from the output", vcfg.describe_path(probs[0][1]) if probs else None)
+    ok = "self._vcf_reader" in u(gl[0].iter) and "record.chrom" in u(gl[0].iter)
+    ctx.ob(vi.qual, "groups-all-records-by-chromosome", ok, vi.loc(gl[0]), "the groups are all records of the file keyed by record.chrom" if ok else "the reader does not group the whole file by chromosome")
     # (b) chromosome loops of the subcommands
     subs = {
         "whatshap.cli.phase.run_whatshap": ["vcf_writer"],
@@ -135,6 +144,21 @@ def r1(ctx):
             if exits and bad is None:
                 bad = c2.find_path(head, c2.nodes_of(exits[0])[0])
             ctx.ob(q, "chromosome-written:%s" % wname, bad is None and bool(wnodes), fi.loc(loop), "every chromosome of the input is handed to %s.write*/write_unchanged on every path" % wname if bad is None and wnodes else "a chromosome can pass the loop without being written by %s: its records (and all following ones) are missing from the output" % wname, c2.describe_path(bad))
+            # the per-chromosome results handed to write() are created afresh in this iteration
+            if wname == "vcf_writer":
+                for wn_ in sorted(wnodes):
+                    for c in ast.walk(c2.ast(wn_)):
+                        if isinstance(c, ast.Call) and isinstance(c.func, ast.Attribute) and c.func.attr == "write" and u(c.func.value) == wname:
+                            for a_ in c.args[1:4]:
+                                if not isinstance(a_, ast.Name):
+                                    continue
+                                defs = {c2.node_of(s_) for s_, v_ in util.assignments_to(loop, a_.id) if isinstance(s_, ast.stmt) and id(s_) in c2.by_stmt and isinstance(v_, (ast.AST, tuple)) and not (isinstance(v_, tuple) and v_[0] == "iter")}
+                                stale = None
+                                for b in c2.succ(head, "loop"):
+                                    p = c2.find_path(b, wn_, avoid_nodes=defs)
+                                    if p is not None:
+                                        stale = [head] + p
+                                ctx.ob(q, "fresh-per-chromosome:%s" % a_.id, stale is None and bool(defs), fi.loc(c), "`%s` handed to %s.write is (re)created inside the chromosome loop before every write" % (a_.id, wname) if stale is None and defs else "`%s` is not re-initialised for every chromosome: results of the previous chromosome are applied to records at coinciding positions" % a_.id, c2.describe_path(stale))
             twice = None
             for a in wnodes:
                 for b in wnodes:
@@ -376,4 +400,4 @@ RULES = [
     ("C04.R5", "header: removals confined, everything else adds", r5),
     ("C04.R6", "GT changes are reported and imply --distrust-genotypes", r6),
 ]
-FLOORS = {"C04.R1": 17, "C04.R2": 9, "C04.R3": 2, "C04.R4": 11, "C04.R5": 6, "C04.R6": 6}
+FLOORS = {"C04.R1": 25, "C04.R2": 9, "C04.R3": 2, "C04.R4": 11, "C04.R5": 6, "C04.R6": 6}
